@@ -143,6 +143,9 @@ class NixList(TypedExpression):
         self, *, indent: int, max_width: int = MAX_INLINE_LIST_WIDTH
     ) -> str | None:
         """Offer a safe inline preview for callers that need compact output."""
+        if self.has_scope():
+            # Lifted let layers are only rendered by rebuild().
+            return None
         if self.multiline:
             return None
         if self.before or self.after or self.inner_trivia:
